@@ -135,6 +135,8 @@ partial def runHistD (prop : String) (env : Date.Env) (mu : Float) :
 
 /-- `kepler <mu> <a e i Ω ω M> <dt>` → the six mean elements after `Kepler.propagate`, `|`, the cartesian state
     `j2 <mu> <a e i Ω ω M> <dt>`     → the same for `J2.propagate`
+    `propc <kepler|j2> <mu> <x y z vx vy vz> <dt>` → the whole of `Orbit.propagate` on a CARTESIAN orbit: the mean elements the
+                                        setter computes, `|`, the cartesian state returned
     `hist <kepler|j2> <mu> <S…|P…>…` → `|`-separated cartesian states, one per `P`
     `histd <kepler|j2> <env> <mu> <S…|E…|D…|T…>…` → the same with dates: epoch and targets given as (scale, clock reading),
                                         the span is computed by the date model; `|`-separated `cart @ span datetime scale`
@@ -152,6 +154,19 @@ def handle : List String → Option String
     | some ([mu, a, e, i, raan, argp, M, dt], []) =>
       let y := j2Step mu ⟨a, e, i, raan, argp, M⟩ dt
       eltsToStr y ++ " | " ++ cartToStr mu y
+    | _ => "bad-op"
+  | "propc" :: prop :: rest => some <|
+    match takeFloats 8 rest with
+    | some ([mu, c0, c1, c2, c3, c4, c5, dt], []) =>
+      match stepOf prop mu with
+      | some stepf =>
+        match eltsOfList (cartToMean mu [c0, c1, c2, c3, c4, c5]) with
+        | some x =>
+          eltsToStr x ++ " | " ++ (match orbitPropagateCart stepf 10000 mu [c0, c1, c2, c3, c4, c5] dt with
+            | some c => if c.length = 6 then fsToStr c else "bad-op"
+            | none => "fuel")
+        | none => "bad-op"
+      | none => "bad-op"
     | _ => "bad-op"
   | "hist" :: prop :: mu :: rest => some <|
     match stepOf prop ((fOfStr? mu).getD 0.0), fOfStr? mu with
